@@ -16,7 +16,8 @@ import (
 type waiter struct {
 	id        int
 	task      *simrt.Task
-	kind      int // 0 WaitValue 1 WaitValueChange 2 WaitValueEmpty 3 validator(>=k) 4 validator with error
+	kind      int   // 0 WaitValue 1 WaitValueChange 2 WaitValueEmpty 3 validator(>=k) 4 validator with error 5 nil validator 6 WatchChanges
+	seen      []int // WatchChanges: values delivered to the callback
 	old, k    int
 	inCall    bool
 	inv       int
@@ -51,8 +52,14 @@ func (w *world) eq(a, b int) bool {
 
 func (w *world) cond(x *waiter, v int) bool {
 	switch x.kind {
-	case 0:
+	case 0, 5:
 		return !w.eq(0, v)
+	case 6:
+		last := x.old
+		if len(x.seen) > 0 {
+			last = x.seen[len(x.seen)-1]
+		}
+		return !w.eq(last, v)
 	case 1:
 		return !w.eq(x.old, v)
 	case 2:
@@ -186,6 +193,40 @@ func (w *world) runWaiter(x *waiter) {
 	case 2:
 		c.Descf("waiter %d: WaitValueEmpty", x.id)
 		err = w.cc.WaitValueEmpty(ctx, errCh)
+	case 5:
+		c.Descf("waiter %d: WaitValueWithValidator(nil validator)", x.id)
+		v, err = w.cc.WaitValueWithValidator(ctx, nil, errCh)
+	case 6:
+		c.Descf("waiter %d: WatchChanges(initial %d)", x.id, x.old)
+		var watchErr error
+		limit := c.IntRange(1, 3)
+		stopErr := errors.New("watch-stop")
+		watchErr = ccontainer.WatchChanges[int](ctx, x.old, w.cc, func(v int) error {
+			last := x.old
+			if len(x.seen) > 0 {
+				last = x.seen[len(x.seen)-1]
+			}
+			if w.eq(last, v) {
+				c.Fail("C15.W3.watch-unchanged-value", "WatchChanges delivered %d although it equals the previously delivered value %d", v, last)
+			}
+			w.checkSeen("WatchChanges", v, x.inv, c.Tick())
+			x.seen = append(x.seen, v)
+			c.S.Count("probe:watch-delivered")
+			if len(x.seen) >= limit {
+				return stopErr
+			}
+			return nil
+		}, errCh)
+		if watchErr == stopErr {
+			x.inCall = false
+			return
+		}
+		err = watchErr
+		if err == nil {
+			x.inCall = false
+			c.Fail("C15.W3.watch-returned-nil", "WatchChanges returned nil")
+			return
+		}
 	case 3:
 		c.Descf("waiter %d: WaitValueWithValidator(>=%d)", x.id, x.k)
 		v, err = w.cc.WaitValueWithValidator(ctx, func(v int) (bool, error) { return v >= x.k, nil }, errCh)
@@ -204,7 +245,7 @@ func (w *world) runWaiter(x *waiter) {
 	x.inCall = false
 	switch {
 	case err == nil:
-		if x.kind != 2 {
+		if x.kind != 2 && x.kind != 6 {
 			if !w.cond(x, v) {
 				c.Fail("C15.W1.condition", "waiter kind %d returned %d which does not satisfy its wait condition", x.kind, v)
 			}
@@ -296,7 +337,7 @@ func run(c *core.Ctx) {
 	c.Descf("ccont: counter=%v mod=%d writers=%d waiters=%d", w.counter, w.mod, nwr, nwa)
 	var tasks []*simrt.Task
 	for i := 0; i < nwa; i++ {
-		x := &waiter{id: i, kind: c.S.Plan(5)}
+		x := &waiter{id: i, kind: c.S.Plan(7)}
 		if w.counter {
 			x.kind = 3
 		}
